@@ -1,7 +1,10 @@
 use core::cell::UnsafeCell;
 use core::num::NonZeroUsize;
 use core::sync::atomic::Ordering::{AcqRel, Acquire, Release};
+#[cfg(not(feature = "verif-hooks"))]
 use core::sync::atomic::{AtomicU8, AtomicUsize};
+#[cfg(feature = "verif-hooks")]
+use crate::verif_hooks::{AtomicU8, AtomicUsize};
 
 #[cfg(any(feature = "async", doc))]
 use crate::iterators::{
